@@ -67,7 +67,7 @@ func init() {
 		Build: func(p *Program, tier string) ([]*Unit, []UnitError) {
 			us, es := buildFuncUnits(p, []string{
 				fr("applySpace"), fr("applyDecorations"),
-				fr("verifLemmaSiblingSpacing"), fr("verifLemmaBadNodeAfter"), fr("verifLemmaCommentThenSpace"),
+				fr("verifLemmaSiblingSpacing"), fr("verifLemmaBadNodeAfter"), fr("verifLemmaCommentThenSpace"), fr("verifLemmaBlockCommentThenSpace"),
 				fr("verifLemmaAfterOpeningToken"), fr("verifLemmaBeforeClosingToken"),
 			}, nil)
 			// every node's Before and After reach applySpace, once each, first and last of its rendering
